@@ -10,6 +10,7 @@ style = sys.argv[3] if len(sys.argv) > 3 else "clauses"
 STYLE = {
  "clauses": "First read the statement clause by clause and the 'quantified over' text: each change must violate a DIFFERENT clause of the statement, or the same clause for a different region of the quantified input space, at a different code site. Prefer changes that only manifest for inputs away from the obvious ones: a particular nesting of two different constructs, the third or later element of a list, several scripts / statements in one file, a particular combination of the -optimize / line-marker / font / switch options with a particular input, unusual but legal token shapes, values at a boundary. State that leaks between two uses (a cache, a reused slice, a counter that is not reset) and cooperating edits at two sites are welcome.",
  "interactions": "Assume that a checker already explores small programs that use the property's feature on its own, in every simple position. Aim for what such a checker would miss: the change must only manifest when the property's feature INTERACTS with another feature of the language or tool - constants (const), poryswitch, AutoVar commands, inline text / format() / moves(), mapscripts with inline scripts, user labels and gotos, several top-level statements in one file in a particular order, line markers, lint mode, -optimize, CRLF or multi-byte input, comments - or only for the second / later occurrence of something in one file, or only at depth >= 2 of nesting. Model each change on a plausible maintenance activity: a performance optimisation (caching, early exit, avoiding an allocation), the first half of a new feature, a generalisation of a helper to a second caller, a clean-up that merges two similar code paths, a bug fix for a different issue that over-reaches.",
+ "margins": "Assume that a checker already explores small and medium programs that use the property's feature alone and in combination with the other main features. Aim at the margins instead: (a) the LAST clauses of the statement and the last items of the 'quantified over' text, which get the least attention; (b) rarely used language forms - do...while, condition-less while, value(), defeated(), comparison operators other than ==, (global)/(local) modifiers, elif chains, nested parentheses and '!' in conditions, empty blocks, trailing commas, hex and negative numbers, multi-token operands, string-type prefixes, raw blocks, comments in odd places; (c) sizes just beyond the usual: the 4th or 5th element of a list, nesting depth 3, three scripts in a file, two mapscripts statements, two tables, long texts; (d) error paths: inputs that must be rejected (or must not be), the position an error is reported at, lint mode versus normal mode; (e) less central helper functions and rarely taken branches of the code the property is anchored in. Model each change on plausible maintenance: a refactoring of a helper, a 'simplification' of a rarely taken branch, tightening or loosening a validity check, a performance tweak in a loop, handling of a new edge case that disturbs an old one.",
 }[style]
 letters = "ABCDEF"[:n]
 os.makedirs(root + "/prompts", exist_ok=True)
